@@ -98,7 +98,10 @@ func vC16Walk(maxDepth, maxN, maxLen int) {
 	want := vRefValid(names)
 	got := ValidPath(names)
 	vAssert(got == want, "C16: ValidPath accepts exactly the safe lists and counts the leading ..")
+	orig := append([]string(nil), names...)
 	res, err := WalkName(dir, names...)
+	vAssert(vStrsEq(names, orig), "C16: WalkName is a function of its arguments (the caller's list is left as it was)")
+	names = orig
 	st, ok := vRefResolve(elems, names)
 	if want < 0 || !ok {
 		vAssert(err != nil, "C16: WalkName rejects unsafe lists and climbs above root")
@@ -171,7 +174,10 @@ func vStrsEq(a, b []string) bool {
 
 func vC16Normalize(maxN, maxLen int) {
 	names := ndNames(maxN, maxLen)
+	orig := append([]string(nil), names...)
 	got, bsp := NormalizePath(names)
+	vAssert(vStrsEq(names, orig), "C16: NormalizePath is a function of its argument (the caller's list is left as it was)")
+	names = orig
 	want, wbsp := vRefNormalize(names)
 	vAssert(bsp == wbsp, "C16: NormalizePath returns -1 exactly on separators, else the leading .. count")
 	if wbsp >= 0 {
@@ -276,7 +282,10 @@ func vC16WalkWide(maxN int) {
 
 func vC16NormalizeWide(maxN int) {
 	names := ndWideNames(maxN)
+	orig := append([]string(nil), names...)
 	got, bsp := NormalizePath(names)
+	vAssert(vStrsEq(names, orig), "C16: NormalizePath is a function of its argument (the caller's list is left as it was)")
+	names = orig
 	want, wbsp := vRefNormalize(names)
 	vAssert(bsp == wbsp, "C16: NormalizePath returns -1 exactly on separators, else the leading .. count")
 	if wbsp >= 0 {
